@@ -44,7 +44,9 @@ FLOATS = [0.0, -0.0, 0.1, 0.15, 0.29, 0.57, 1.0, 1.5, -2.25, 3.14, 100.0, 2.0 **
 SPECIAL_FLOATS = [math.inf, -math.inf, math.nan]
 STRS = ["", "a", "b", "ab", "abc", "banana", "aaa", "xyz", "0", "12", "a1", "hello world",
         "Ab_9", "é", "日本", "\U0001f600", "a\nb", " ", "-"]
-ALPHABETS = ["ab", "abn", "abc", "0123456789", "", "xyz", "abnéz", "a"]
+ALPHABETS = ["ab", "abn", "abc", "0123456789", "", "xyz", "abnéz", "a",
+             # characters that mean something to re / fnmatch / format: an alphabet is a plain set of characters
+             "a-f0-9", "^ab", "ab]", "\\]x-", "+-*", "[a]", ".", "a|b", "\\d", "{}%s", "a\nb"]
 SUBSTRS = ["", "a", "an", "ab", "nan", "z", "é"]
 # (pattern, matching examples, non-matching examples) ; all inside the matcher's fragment
 PATTERNS = [
